@@ -83,7 +83,7 @@ def scenario(em, ops, log, depth_limit=2):
                 state['depth'] -= 1
         return h
     hs = {}
-    for op in ops:
+    for pos, op in enumerate(ops):
         kind = op[0]
         if kind in ('on', 'once'):
             cb = op[2]
@@ -91,7 +91,11 @@ def scenario(em, ops, log, depth_limit=2):
                 cb = hs.setdefault(cb, make_h(cb[1:]))
             else:
                 cb = cbs[cb]
-            getattr(em, kind)(op[1], cb)
+            if pos % 2 == 1:
+                # every other subscription binds a context of its own: it must reach that listener and no other
+                getattr(em, kind)(op[1], cb, {'c%d' % pos: pos})
+            else:
+                getattr(em, kind)(op[1], cb)
         elif kind == 'off':
             if op[2] is None:
                 em.off(op[1])
